@@ -5,7 +5,7 @@ import time
 from .core import Unit
 
 
-def pyvc_unit(prop, uid, build_registry, targets, timeout_ms=None, tiers=('quick', 'thorough'), weight=1, tag=None):
+def pyvc_unit(prop, uid, build_registry, targets, timeout_ms=None, tiers=('quick', 'thorough'), weight=1, tag=None, fix=None):
     """targets: list of contract target names (all verified in one worker, sharing the registry)"""
 
     def run():
@@ -16,6 +16,11 @@ def pyvc_unit(prop, uid, build_registry, targets, timeout_ms=None, tiers=('quick
         out = {'functions': [], 'results': [], 'assumptions': [], 'trusted': []}
         for t in targets:
             c = reg.contracts[t]
+            if fix:
+                # finite-domain parameter instantiated per value (exhaustive in that parameter, unbounded in the data)
+                c.params = dict(c.params)
+                for k, v in fix.items():
+                    c.params[k] = ('const', v)
             info = verify_contract(reg, c, timeout_ms=timeout_ms, seed=seed)
             nres = len(info['results'])
             ok = info['status'] == 'ok' and all(r.status == 'discharged' for r in info['results'])
@@ -25,6 +30,8 @@ def pyvc_unit(prop, uid, build_registry, targets, timeout_ms=None, tiers=('quick
             for r in info['results']:
                 d = r.as_dict()
                 d['id'] = '%s.%s' % (prop, d['id'])
+                if fix:
+                    d['path'] = (d.get('path') or '') + ' ' + ','.join('%s=%r' % kv for kv in sorted(fix.items()))
                 d['target'] = t
                 if info['status'] == 'error':
                     d['status'] = 'error'
